@@ -247,6 +247,14 @@ pub fn encode_values(k: Kind, seed: u64) -> Vec<(Vec<u8>, u128)> {
                     push(format!("x{}", unit.repeat(n)).into_bytes());
                 }
             }
+            // multi-byte texts around the byte / character limits (127/128 characters, 509/513 and 763
+            // bytes) in every phase: a limit applied in bytes on one path and in characters (or at a
+            // character boundary) on another shows here
+            for len in (120usize..=132).chain(376..=388).chain(505..=520).chain(755..=775) {
+                for t in phase_texts(len) {
+                    push(t);
+                }
+            }
             push(b"example.org".to_vec());
             for edge in [&b"trailing "[..], b" leading", b"tab\t", b"nul\0", b"\0", b" ", b"a\r\n", b"UPPER lower"] {
                 push(edge.to_vec());
@@ -313,6 +321,14 @@ pub fn encode_values(k: Kind, seed: u64) -> Vec<(Vec<u8>, u128)> {
             push(v);
             for v in standard_reason_values() {
                 push(v);
+            }
+            // multi-byte reasons around the 763-byte limit (and the 127/128-character one) in every phase
+            for len in (120usize..=132).chain(376..=388).chain(505..=515).chain(755..=775) {
+                for t in phase_texts(len) {
+                    let mut v = vec![0, 0, 5, 0];
+                    v.extend_from_slice(&t);
+                    push(v);
+                }
             }
         }
         Kind::UnknownAttributes => {
